@@ -76,7 +76,7 @@ def check_shape(t, shape, kinds, triples):
 def job_shapes(shapes, kinds, triples):
     t = core.Tally()
     for s in shapes:
-        check_shape(t, s, kinds, triples)
+        core.guard(t, "C04", {"engine": "E2", "module": MOD, "part": "shape", "shape": s, "kind": kinds[0]}, check_shape, t, s, kinds, triples)
     return t
 
 
@@ -133,11 +133,14 @@ def job_states(kind, n, states, depth2):
         t.c["states"] += 1
         for op1 in ops1:
             t.c["transitions"] += 1
-            run_history(t, kind, n, witness, (op1,))
+            core.guard(t, "C04", {"engine": "E2", "module": MOD, "part": "history", "kind": kind, "n": n,
+                                  "witness": [list(w) for w in witness], "history": [list(op1)]}, run_history, t, kind, n, witness, (op1,))
             if depth2 and op1[0] != "setc":
                 for op2 in ops2:
                     t.c["transitions"] += 1
-                    run_history(t, kind, n, witness, (op1, op2))
+                    core.guard(t, "C04", {"engine": "E2", "module": MOD, "part": "history", "kind": kind, "n": n,
+                                          "witness": [list(w) for w in witness], "history": [list(op1), list(op2)]},
+                               run_history, t, kind, n, witness, (op1, op2))
         t.obs((kind, key, t.c["evaluations"]))
     if states:
         t.sample({"kind": kind, "witness": [list(w) for w in states[-1][2]], "then": "query all; op1; query all; op2; query all"}, cap=1)
